@@ -1,6 +1,7 @@
 package tmplx
 
 import (
+	"sort"
 	"strings"
 	"sync/atomic"
 
@@ -39,6 +40,7 @@ var Helpers = map[string]string{
 	"open": `<a href="`,
 	"gt":   `>`,
 	"hh":   `{{template "h" $}}`,
+	"ot":   `<b title="` + Slot, // opens an attribute and interpolates into it: leaves the context it was called in
 }
 
 // Node is one explored program prefix (auto-closed into a complete program).
@@ -92,7 +94,13 @@ func (e *Explorer) build(seq []int) *Node {
 		b.WriteString("{{end}}")
 	}
 	raw := b.String()
-	for name, body := range Helpers {
+	names := make([]string, 0, len(Helpers))
+	for name := range Helpers {
+		names = append(names, name)
+	}
+	sort.Strings(names) // deterministic program text (it is part of violation keys)
+	for _, name := range names {
+		body := Helpers[name]
 		if strings.Contains(raw, `{{template "`+name+`"`) {
 			raw += `{{define "` + name + `"}}` + body + `{{end}}`
 			if name == "hh" && !strings.Contains(raw, `{{define "h"}}`) {
